@@ -23,6 +23,7 @@ from automata.fa.dfa import DFA
 
 from harness import gen
 from harness import dfa_query_lib as L
+from harness.common import guarded as case_guard
 from harness.common import Ctx, Toks, call, enc_dfa, toks
 
 LEVEL = "proof"
@@ -209,6 +210,7 @@ def prop_uniform(d: DFA, k: int, bwk):
 
 
 # --------------------------------------------------------------- one DFA
+@case_guard
 def check_dfa(ctx: Ctx, d: DFA, origin: str, *, uniform: bool = False, light: bool = False):
     rng = ctx.rng
     enc, st, sy = enc_dfa(d)
@@ -373,7 +375,7 @@ def run(ctx: Ctx):
     ctx.exhaustive("all DFAs (complete and partial, all final sets) with ≤2 states over {a,b} × every k ≤ "
                    + ("6" if ctx.thorough() else "5") + " (count, words, all DP tables), min/max/empty/finite, cardinality/len, "
                    "iteration prefixes, random_word" + (" incl. exact output distribution for k ≤ 3" if ctx.thorough() else ""))
-    for _ in range(ctx.budget(900, 40000)):
+    for _ in range(ctx.budget(900, 22000)):
         d, kind = L.shaped_dfa(rng, 6)
         ctx.stat(f"kind:{kind}")
         check_dfa(ctx, d, "random", uniform=rng.random() < 0.15)
